@@ -207,6 +207,9 @@ def havoc_targets(ex, spec, st, fr):
     from .calls import havoc_val
     for path in spec.modifies:
         parts = path.split('.')
+        if len(parts) == 1 and parts[0] in st.ghost and parts[0] not in st.env:
+            st.ghost[parts[0]] = havoc_val(ex, st.ghost[parts[0]], path, st)      # ghost variable
+            continue
         if len(parts) == 1:
             cur = st.env.get(parts[0])
             if cur is None:
